@@ -256,6 +256,42 @@ func lemma_C12_recordRoundtrip_sizes_255_2_1(profile, compat, level, lsm1, h0, t
 	return spec_recordRoundtrip(profile, compat, level, lsm1, spec_mkNALU(h0, t0, 255), spec_mkNALU(h1, t1, 2), spec_mkNALU(h2, t2, 1))
 }
 
+// the same with NAL units of ANY size 1..65535 (symbolic sizes: one condition covers every length, so also every carry
+// between the two bytes of the 16-bit length fields); the list SHAPE (2 SPS, 1 PPS) is still fixed
+//@ bounded lemma_C12_recordRoundtrip_anysize 4
+//@ thorough lemma_C12_recordRoundtrip_anysize
+//@ lemma C12.record.roundtrip.anysize.bounded
+func lemma_C12_recordRoundtrip_anysize(profile, compat, level, lsm1, h0, t0, h1, t1, h2, t2 uint8, n0, n1, m0 uint16) bool {
+	if n0 == 0 || n1 == 0 || m0 == 0 {
+		return true
+	}
+	return spec_recordRoundtrip(profile, compat, level, lsm1, spec_mkNALU(h0, t0, int(n0)), spec_mkNALU(h1, t1, int(n1)), spec_mkNALU(h2, t2, int(m0)))
+}
+
+// the writer alone, for NAL units of any size: every 16-bit length field is the size of the NAL unit behind it
+//@ bounded lemma_C12_recordLayout_anysize 4
+//@ lemma C12.record.layout.anysize.bounded
+func lemma_C12_recordLayout_anysize(profile, compat, level, lsm1, h0, t0, h2, t2 uint8, n0, m0 uint16) bool {
+	if n0 == 0 || m0 == 0 {
+		return true
+	}
+	s0, p0 := spec_mkNALU(h0, t0, int(n0)), spec_mkNALU(h2, t2, int(m0))
+	r := NewAVCDecoderConfigurationRecord()
+	r.AVCProfileIndication, r.profileCompatibility, r.AVCLevelIndication, r.LengthSizeMinusOne = AVCProfile(profile), compat, AVCLevel(level), lsm1&3
+	r.SequenceParameterSetNALUnits = []*NALU{s0}
+	r.PictureParameterSetNALUnits = []*NALU{p0}
+	b, err := r.MarshalBinary()
+	if err != nil {
+		return false
+	}
+	a, m := int(n0), int(m0)
+	if len(b) != 6+2+a+1+2+m {
+		return false
+	}
+	return b[5] == 0xe0|1 && int(b[6])<<8|int(b[7]) == a && b[8] == (h0&3)<<5|t0&0x1f && prim_eqbytes(b[9:8+a], s0.Data) &&
+		b[8+a] == 1 && int(b[9+a])<<8|int(b[10+a]) == m && b[11+a] == (h2&3)<<5|t2&0x1f && prim_eqbytes(b[12+a:], p0.Data)
+}
+
 // samples with 2 NAL units at the boundary sizes of each NAL length size: big-endian length prefixes and round trip
 //@ bounded lemma_C12_sampleRoundtrip_size1 6
 //@ lemma C12.sample.roundtrip.bounded
